@@ -408,3 +408,47 @@ fn condvar_wait_and_notify() {
     });
     assert!(matches!(r.failure, Some(Failure::Deadlock { .. })), "{:?}", r.failure);
 }
+
+/// `Condvar::wait_timeout`: a notification that is already pending is
+/// consumed (no time-out); without one the wait times out after giving the
+/// other thread a turn; the producer/consumer pair terminates under every
+/// sampled schedule.
+#[test]
+fn condvar_wait_timeout_model() {
+    use dsim::shim::sync::{Condvar, Mutex};
+    use std::sync::Arc;
+    for seed in 0..200u64 {
+        let cfg = dsim::RunConfig {
+            seed,
+            strategy: dsim::StrategySpec::Random { switch_permille: 500 },
+            ..dsim::RunConfig::default()
+        };
+        let r = dsim::run(
+            cfg,
+            Box::new(|| {
+                let pair = Arc::new((Mutex::new(false), Condvar::new()));
+                let p2 = pair.clone();
+                let h = dsim::shim::thread::spawn(move || {
+                    *p2.0.lock().unwrap() = true;
+                    p2.1.notify_one();
+                });
+                let mut g = pair.0.lock().unwrap();
+                let mut timeouts = 0u32;
+                while !*g {
+                    let (g2, r) = pair.1.wait_timeout(g, std::time::Duration::from_millis(1)).unwrap();
+                    g = g2;
+                    if r.timed_out() {
+                        timeouts += 1;
+                    }
+                    assert!(timeouts < 10_000);
+                }
+                drop(g);
+                h.join().unwrap();
+                let g = pair.0.lock().unwrap();
+                let (g, r) = pair.1.wait_timeout_while(g, std::time::Duration::from_millis(1), |ready| !*ready).unwrap();
+                assert!(*g && !r.timed_out());
+            }),
+        );
+        assert!(r.failure.is_none(), "seed {seed}: {:?}", r.failure);
+    }
+}
